@@ -165,6 +165,9 @@ func c07Collect(c *Ctx, p *Prog, m *Model) {
 			return false
 		}
 		cal := calleeOf(call)
+		if cal != nil && flagPredicate(p, cal, lattrsR) {
+			return true // a parameterless predicate of the package that is exactly this flag test
+		}
 		if cal == nil || (nm(cal) != "IsAnyBitsSet" && nm(cal) != "IsAllBitsSet") {
 			return false
 		}
